@@ -38,11 +38,11 @@ def units(ctx):
         for spec in fam3:
             us.append(("rel", spec, 3, sc, ctx.seed))
     # geometry sweeps
-    step = 1 if ctx.thorough else 3
+    step = 1
     th = [t + (ctx.seed % 10) / 10.0 for t in range(1, 179, step)]
     for ch in lattice.chunks(th, 6):
         us.append(("theta_geom", tuple(ch)))
-    ice = [(h, k) for h in range(10, 85, 5 if ctx.thorough else 10) for k in range(3, 13)]
+    ice = [(h, k) for h in range(10, 85, 5) for k in range(3, 13)]
     for ch in lattice.chunks(ice, 4):
         us.append(("ice_geom", tuple(ch)))
     us.append(("named_geom",))
